@@ -70,6 +70,7 @@ class Msg(object):
         self.reject = []              # MUST-level reasons
         self.either = []              # MAY/SHOULD/repair reasons
         self.opaque = False           # an 'either' reason without an RFC-defined repaired parse
+        self.opaque_after = False     # this message has a defined parse, what follows it on the stream cannot be judged
         self.features = set()
         self.method = None
         self.target = None
@@ -428,9 +429,12 @@ def parse_request(buf, pos=0):
                 m.features.add('expect-in-1.0')
         if te:
             if m.version == (1, 0):
-                _add(m.either, 'te-in-http10')               # R9
-                m.opaque = True
-                return m
+                # R9: the framing is faulty -> reject, or (6.3: Transfer-Encoding overrides Content-Length) process it with the
+                # Transfer-Encoding framing and close.  What is NOT among the outcomes is framing the message by its
+                # Content-Length / as bodiless and reading the chunks as the next request (seed C23-4).  So: either, with the
+                # TE parse as the only accepted delivery, and nothing after it judged.
+                _add(m.either, 'te-in-http10')
+                m.opaque_after = True
             cod = _te_codings(m.headers)
             if not cod or cod[-1][0] != b"chunked":
                 _add(m.reject, 'te-not-final-chunked')       # R10
